@@ -1,5 +1,13 @@
 package main
 
+import (
+	"encoding/json"
+	"fmt"
+
+	"github.com/cloudwego/gopkg/bufiox"
+	"github.com/cloudwego/gopkg/protocol/thrift"
+)
+
 // C02, C08, C17 — the skipping facilities against the reference grammar (ThriftSkip.tla).
 
 func mcSkip(c *Ctx, quickCfg string) {
@@ -11,7 +19,7 @@ func mcSkip(c *Ctx, quickCfg string) {
 }
 
 func checkC02(c *Ctx) {
-	c.rule = "MC: over every byte string up to MaxLen over a grammar alphabet and every type, the reference grammar is self-delimiting (extent independent of trailing bytes; every strict prefix short). TRACE: one case = (typed value tree of a given type + trailing bytes); all 11x11 map and 11 list/set element combinations x counts 0,1,2,7; nesting 1..63 of every container kind; seeded random trees (depth<=5, strings up to 72KB); each is fed to the five skippers under bytes-backed, fitting, 1-byte, zero-byte and data+EOF source shapes; TLC computes the reference extent and judges success, length, returned bytes and source position."
+	c.rule = "MC: over every byte string up to MaxLen over a grammar alphabet and every type, the reference grammar is self-delimiting (extent independent of trailing bytes; every strict prefix short). TRACE: one case = (typed value tree of a given type + trailing bytes); all 11x11 map and 11 list/set element combinations x counts 0,1,2,7; nesting 1..63 of every container kind; seeded random trees (depth<=5, strings up to 72KB); each is fed to the five skippers under bytes-backed, fitting, 1-byte, zero-byte and data+EOF source shapes; TLC computes the reference extent and judges success, length, returned bytes and source position. Containers of fixed-size elements of 4 GiB and more are skipped from a lazily mapped buffer and compared with the extent formula in Go."
 	mcSkip(c, "MC_ThriftSkip_small.cfg")
 	c.TraceCheck(famSkipC02, wellFormedSkipCases(c, c.Pick(4000, 60000), 2))
 	// sessions: one decoder / reader instance skips 2..6 consecutive values (state carried between calls,
@@ -20,7 +28,82 @@ func checkC02(c *Ctx) {
 	// implementation level: ReaderSkipDecoder's private buffer (n, len, cap after every value, read through the
 	// hook) against the buffer model driven by the pushdown machine's request sequence (drift only)
 	c.TraceCheck(famRdec, skipSeqCases(c, c.Pick(1500, 20000)))
+	giantSkipValues(c)
 	c.Assume("well-formedness is decided by the reference (ThriftSkip.tla), not by the generator; inputs the reference rejects are judged by C08 only")
+	c.Assume("values of 4 GiB and more (count x element size beyond 32 bits) are compared in Go with the extent formula of the grammar: TLC integers are 32-bit")
+}
+
+// giantSkipValues: well-formed containers of fixed-size elements whose payload is 4 GiB or more (the product count x
+// element size no longer fits 32 bits), in a lazily mapped all-zero buffer. Go monitor: expected extent by formula.
+func giantSkipValues(c *Ctx) {
+	const maxN = 5 + (1 << 32) + 64
+	var buf []byte
+	func() {
+		defer func() { recover() }()
+		buf = make([]byte, maxN)
+	}()
+	if buf == nil {
+		c.Assume("giant values skipped: 4 GiB of address space could not be reserved")
+		return
+	}
+	type gv struct {
+		t    int8
+		hdr  []byte
+		want int64
+		note string
+	}
+	put32 := func(n uint32) []byte { return []byte{byte(n >> 24), byte(n >> 16), byte(n >> 8), byte(n)} }
+	var vals []gv
+	for _, cnt := range []uint32{1 << 29, 1<<29 + 1} {
+		vals = append(vals, gv{15, append([]byte{10}, put32(cnt)...), 5 + int64(cnt)*8, "list<i64>"})
+		vals = append(vals, gv{14, append([]byte{4}, put32(cnt)...), 5 + int64(cnt)*8, "set<double>"})
+	}
+	vals = append(vals, gv{13, append([]byte{10, 10}, put32(1<<28)...), 6 + int64(1<<28)*16, "map<i64,i64>"})
+	vals = append(vals, gv{13, append([]byte{8, 10}, put32(1<<28+3)...), 6 + int64(1<<28+3)*12, "map<i32,i64>"})
+	vals = append(vals, gv{15, append([]byte{8}, put32(1<<30)...), 5 + int64(1<<30)*4, "list<i32>"})
+	var n int64
+	for _, v := range vals {
+		if v.want+1 > int64(len(buf)) {
+			continue
+		}
+		for i := range buf[:8] {
+			buf[i] = 0
+		}
+		copy(buf, v.hdr)
+		in := buf[:v.want+1]
+		report := func(impl string, got int64, err error) {
+			n++
+			if err != nil || got != v.want {
+				c.GoViolation("giant-C02", "skip/"+impl+"/giant", map[string]interface{}{"value": v.note, "hdr": hexOf(&SegBuf{b: v.hdr})},
+					fmt.Sprintf("well-formed %s of %d bytes: got n=%d err=%v", v.note, v.want, got, err))
+			}
+		}
+		func() {
+			defer func() {
+				if p := recover(); p != nil {
+					report("panic", -1, fmt.Errorf("panic: %v", p))
+				}
+			}()
+			k, err := thrift.Binary.Skip(in, v.t)
+			report("binary", int64(k), err)
+			d := thrift.NewBytesSkipDecoder(in)
+			x, err := d.Next(v.t)
+			report("bytesdec", int64(len(x)), err)
+			d.Release()
+			rd := bufiox.NewBytesReader(in)
+			sd := thrift.NewSkipDecoder(rd)
+			y, err := sd.Next(v.t)
+			report("skipdec", int64(len(y)), err)
+			sd.Release()
+			rd2 := bufiox.NewBytesReader(in)
+			br := thrift.NewBufferReader(rd2)
+			err = br.Skip(v.t)
+			report("bufferreader", br.Readn(), err)
+			br.Recycle()
+		}()
+	}
+	c.AddExtraCount("giant_values_skipped", n)
+	c.AddEvals(n)
 }
 
 func checkC08(c *Ctx) {
@@ -56,4 +139,8 @@ func init() {
 	checks["C02"] = checkC02
 	checks["C08"] = checkC08
 	checks["C17"] = checkC17
+}
+
+func init() {
+	goReplays["giant-C02"] = func(c *Ctx, raw json.RawMessage) { giantSkipValues(c) }
 }
